@@ -13,7 +13,7 @@ CBMC_TIMEOUT = int(os.environ.get('VF_CBMC_TIMEOUT', '600'))
 CBMC_MEM_KB = 12 * 1024 * 1024
 
 CBMC_CHECKS = ['--bounds-check', '--pointer-check', '--pointer-overflow-check',
-               '--signed-overflow-check', '--div-by-zero-check', '--pointer-primitive-check', '--sat-solver', 'cadical']
+               '--signed-overflow-check', '--div-by-zero-check', '--pointer-primitive-check']
 
 
 class Undecided(Exception):
@@ -235,8 +235,11 @@ def weave(job, cpath, info, outdir, witness_mode=False):
     fi = info['functions'][entry]
     contracts = {entry: job.contract}
     replaced = []
-    for pat, con in job.stubs:
+    for st_ in job.stubs:
+        pat, con = st_[0], st_[1]
         hits = find_fn(info, pat, reach)
+        if not [h for h in hits if h != entry] and not (len(st_) > 2 and st_[2] == 'opt'):
+            raise Undecided('stub pattern %r matches no function reachable from the entry (renamed or no longer called)' % pat)
         for cn in hits:
             if cn == entry:
                 continue
@@ -270,7 +273,7 @@ def weave(job, cpath, info, outdir, witness_mode=False):
             if re.search(r'(^|\s)(std::|tao::pegtl::demangle|__gnu_cxx::)', pretty.split('(')[0]) or pretty.startswith('std::'):
                 targets = []
                 sig = f.get('sig', '')
-                for m_ in re.finditer(r'struct (S_\w+)\* (\w+)', sig):
+                for m_ in re.finditer(r'struct (S_\w+)\* (\w+)(?=[,)])', sig[sig.index('('):] if '(' in sig else ''):
                     if 'opaque library type' in src.split('struct %s {' % m_.group(1))[1][:200] if ('struct %s {' % m_.group(1)) in src else False:
                         targets.append('*%s' % m_.group(2))
                 contracts[cn] = Contract(R('1', 'trusted-library'), Clause('assigns', ', '.join(targets)))
@@ -464,6 +467,8 @@ def run_job(job, cpath, info, tier, defines=(), subdir=None, witness_mode=False,
             cmd += ['--unwind', '30']
         elif job.unwind is not None:
             cmd += ['--unwind', str(job.unwind), '--unwinding-assertions']
+        if job.solver == 'sat':
+            cmd += ['--sat-solver', 'cadical']
         if job.solver == 'z3':
             cmd += ['--z3']
         elif job.solver == 'cvc5':
@@ -505,7 +510,7 @@ def run_job(job, cpath, info, tier, defines=(), subdir=None, witness_mode=False,
             res['reason'] = 'cbmc: no body for %s' % sorted(set(nobody))
             return res
         if results is None:
-            res['reason'] = 'cbmc produced no result list: ' + alltext[-800:]
+            res['reason'] = 'cbmc produced no result list: ' + (alltext[-800:] + ' ' + se[-300:])
             return res
         obs = []
         for r in results:
